@@ -175,7 +175,7 @@ func runC16(c *Check) {
 		}
 	}
 	sort.Slice(calls, func(i, j int) bool { return c.P.Key(calls[i].Fn) < c.P.Key(calls[j].Fn) })
-	c.Min("R1", "synchronous request registrations", len(calls), 10)
+	c.Min("R1", "synchronous request registrations", len(calls), 5)
 
 	// ---- collect deliveries in the router
 	router := c.Fn("R1", "client.(*RemoteClient).handleRequestResponse")
